@@ -509,9 +509,15 @@ _MODEL = {}
 
 def tiny_model():
     if "m" not in _MODEL:
-        from rl_blox.blox.function_approximator.mlp import MLP
+        import gymnasium as gym
 
-        _MODEL["m"] = MLP(2, 1, [3], "relu", nnx.Rngs(0))
+        from rl_blox.blox.function_approximator.mlp import MLP
+        from rl_blox.blox.function_approximator.policy_head import DeterministicTanhPolicy
+
+        # a module with trainable parameters AND other state (the action scale / bias Variables of the tanh head):
+        # a checkpoint must carry everything that is needed to restore the module
+        box = gym.spaces.Box(np.array([-1.0], np.float32), np.array([2.0], np.float32))
+        _MODEL["m"] = DeterministicTanhPolicy(MLP(2, 1, [3], "relu", nnx.Rngs(0)), box)
         _MODEL["abstract"] = jax.tree.map(ocp.utils.to_shape_dtype_struct, nnx.state(_MODEL["m"]))
         _MODEL["reader"] = ocp.StandardCheckpointer()
     return _MODEL["m"]
